@@ -301,6 +301,30 @@ func c06R2(c *Ctx) {
 			continue
 		}
 		trig := extractOf(dets[0].(*ssa.Call), 1)
+		// whether a tunnel connector is set is looked up for THIS chunk (the connector is installed after the pump has started,
+		// a value read once before the loop is stale for every later trigger)
+		var read *ssa.Call
+		eachInstr(f, func(in ssa.Instruction) {
+			if call, ok := in.(*ssa.Call); ok && call.Call.IsInvoke() && call.Call.Method.Name() == "Read" {
+				read = call
+			}
+		})
+		if read != nil && len(dets[0].Common().Args) >= 3 {
+			fresh := false
+			for _, l := range origins(dets[0].Common().Args[2], originOpts{}) {
+				v := l.V
+				if op, x, _, ok := cmpFact(fact{V: v, Pol: true}); ok && (op == token.NEQ || op == token.EQL) {
+					v = x
+				}
+				if call, _ := callOf(v); call != nil && isAtomicOnField(call, "tunnelConnector", "Load") && domI(read, call) {
+					fresh = true
+				} else {
+					fresh = false
+					break
+				}
+			}
+			c.check(fresh, p.fn+"/tunnel-flag-per-chunk", c.ipos(dets[0]), "the detector is told whether a tunnel connector is set as of this chunk", "the tunnel-connector flag handed to the detector is not read per chunk: a connector installed later is never seen and tunnel triggers are rejected")
+		}
 		n := 0
 		eachInstr(f, func(in ssa.Instruction) {
 			g, ok := in.(*ssa.Go)
